@@ -171,6 +171,14 @@ for variant, cls in (('inverse', 'KFACInverseLayer'), ('eigen', 'KFACEigenLayer'
                 ('only_on_factor_update_steps', f'implies(self._steps % self.factor_update_steps != 0, {UNCHANGED})'),
                 ('step_counter_untouched', 'self._steps == old(self._steps)'),
                 ('communicator_invariant', f'tdc_inv({HOOK_LAYER}.tdc)'),
+                # C03: whether the factor reduction is issued depends only on rank-invariant data (mode, step count,
+                # accumulation counter) -- never on the local batch
+                ('reduction_issued_whenever_the_schedule_says_so',
+                 f'implies(module.training and self._steps % self.factor_update_steps == 0 and self._update_factors_in_hook and '
+                 + (f'((old(self._mini_steps)[{HOOK_NAME}] if {HOOK_NAME} in old(self._mini_steps) else 0) + 1) % self._accumulation_steps == 0'
+                    if hook == '_save_input' else
+                    f'(self._mini_steps[{HOOK_NAME}] if {HOOK_NAME} in self._mini_steps else 0) % self._accumulation_steps == 0')
+                 + f" and group_size(wa_factor_group(self._assignment, {HOOK_NAME}, '{X.upper()}')) != 1, is_future({HOOK_LAYER}._{X}_factor))"),
             ] + ([('counts_the_forward_pass', f'implies(module.training and self._steps % self.factor_update_steps == 0, '
                                               f'self._mini_steps[{HOOK_NAME}] == (old(self._mini_steps)[{HOOK_NAME}] if {HOOK_NAME} in old(self._mini_steps) else 0) + 1)')]
                  if hook == '_save_input' else [('mini_step_counter_untouched', 'True')]),
